@@ -194,6 +194,9 @@ func (c17) Gen(r *core.Rand, tier string) interface{} {
 		s.Pred.M = s.Pred.N + r.Range(1, 400)
 	case 3:
 		s.Pred = PredSpec{Kind: "flap", N: r.Pick(2, 3, 184, 368), M: r.Range(0, 400)}
+		if r.Bool() {
+			s.Pred = PredSpec{Kind: "prefix"}
+		}
 	default:
 		s.Pred = PredSpec{Kind: "threshold", N: r.Pick(0, 1, 184, 185, 368, 500, 1000, r.Range(1, 1500))}
 	}
@@ -335,6 +338,13 @@ func (p *c17Pred) eval(b []byte) (bool, error) {
 			return false, &parties.InjectedErr{ID: 3000 + len(b)}
 		}
 		return len(b) >= p.spec.T, nil
+	case "prefix":
+		// a verdict that depends on the content, the way a section length in the first bytes
+		// decides completeness: the second byte of the unit says how many full payloads it takes
+		if len(b) < 2 {
+			return false, nil
+		}
+		return len(b) >= 184*(1+int(b[1])%3), nil
 	case "errtrue":
 		// an error together with done=true: by Go convention the other result means nothing
 		// when the error is not nil - the error is propagated and nothing is complete
